@@ -32,7 +32,9 @@ FILL = st.lists(st.sampled_from([0x00, 0x3C, 0x04, 0x23, 0x0B, 0xA7]), min_size=
 
 @st.composite
 def templates(draw, org, frame):
-    kind = draw(st.sampled_from(['halt', 'halt', 'haltb', 'block', 'prefix', 'out', 'im2', 'ei']))
+    kind = draw(st.sampled_from(['halt', 'halt', 'haltb', 'block', 'prefix', 'out', 'ay', 'im2', 'ei']))
+    if kind == 'ay' and frame != 70908:
+        kind = 'prefix'       # the AY chip (and its state in snapshots) is documented for 128K machines only
     t = None
     if kind == 'haltb':
         # HALT next to a contended/uncontended boundary, entered during the display period
@@ -59,6 +61,12 @@ def templates(draw, org, frame):
             v = draw(st.sampled_from([0, 1, 5, 7, 0x10, 0x17, 0x20, 0xFF]) | st.integers(0, 255))
             code += [0x01, port & 255, port >> 8, 0x3E, v, 0xED, 0x79]
         code += draw(FILL)
+    elif kind == 'ay':
+        # select an AY register (or none: values >= 16 deselect), then - possibly in the other leg - write the data
+        # port and read the register port back into memory
+        v1 = draw(st.sampled_from([0, 7, 15, 16, 23, 31, 0x80, 0xFF]) | st.integers(0, 255))
+        code = [0x01, 0xFD, 0xFF, 0x3E, v1, 0xED, 0x79] + draw(FILL) + [0x06, 0xBF, 0x3E, draw(st.integers(0, 255)), 0xED, 0x79,
+                                                                        0x06, 0xFF, 0xED, 0x78, 0x32, 0x00, 0x90] + draw(FILL)
     elif kind == 'im2':
         # I = 0x90: vector at 0x90FF -> handler at org + 0x40 (EI: RET)
         code = [0x3E, 0x90, 0xED, 0x47, 0xED, 0x5E, 0xFB] + draw(FILL) + [0x76] + draw(FILL)
